@@ -262,6 +262,21 @@ def run_shard(shard, tier, seed):
                     bad("C14.order", "dependency-after-use", g, roots, "emitted %r; %r" % (names, late[:3]))
                     continue
                 res.outcomes["ok:sort"] += 1
+                # a class that enters a build ONLY as the return type of a kernel (arguments are plain numbers)
+                if len(roots) == 1:
+                    res.transitions += 1
+                    res.events["return-type-root"] += 1
+                    try:
+                        kd = {"c14k": xo.Kernel(args=[xo.Arg(xo.Int64, name="n")], ret=xo.Arg(classes[roots[0]]), c_name="c14k")}
+                        ks = xo.ContextCpu().build_kernels(kernel_descriptions=kd, sources=[], compile=False)
+                        rspec = ks[next(iter(ks))].specialized_source
+                        missing = [nm for nm in names if rspec.count("#define XOBJ_TYPEDEF_%s\n" % nm) != 1]
+                        if missing:
+                            bad("C14.closure", "return-type-class-not-emitted", g, roots, "kernel returning %s: API of %r emitted %r times" % (rnames[0], missing, [rspec.count("#define XOBJ_TYPEDEF_%s\n" % nm) for nm in missing]))
+                            continue
+                    except Exception as e:
+                        bad("C14.source", "return-type-build-raises:" + common.exc_failure(e), g, roots, repr(e))
+                        continue
                 # source assembly for the full root list in canonical order (and every root order for tiny graphs)
                 if len(roots) == n and (roots == tuple(range(n)) or n <= 2):
                     ctx = xo.ContextCpu()
